@@ -80,6 +80,7 @@ func init() {
 		reg("(*net.conn)."+m, okf)
 	}
 
+	verifFuncs["verifEndpointAddr"] = func(fr *frame, a []value) value { return mkStr("127.0.0.1:2003") }
 	verifFuncs["verifEndpointUp"] = func(fr *frame, a []value) value { E.netUp = a[0].(*Term).IsTrue(); return nil }
 	verifFuncs["verifNumConns"] = func(fr *frame, a []value) value { return mkI(len(E.netConns)) }
 	verifFuncs["verifEndpointLog"] = func(fr *frame, a []value) value {
